@@ -1364,8 +1364,10 @@ fn mk_backend(plugin: &Option<String>) -> Backend {
 fn trace(lines: &[String], out: &str, nslots: usize, nctx: usize, plugin: &Option<String>) {
     let mut main_log = vkit::NdJson::create(out);
     let mut kid_log = vkit::NdJson::create(&format!("{}.kid", out));
-    for line in lines {
+    for (li, line) in lines.iter().enumerate() {
         let beh: Value = serde_json::from_str(line).expect("behaviour json");
+        // recorded executions too: every other one with contexts made by foreign code
+        FOREIGN_CTX.store(li % 2 == 1, std::sync::atomic::Ordering::SeqCst);
         let touches_kid = beh.as_array().unwrap().iter().any(|st| st["a"]["op"] == "KidBorrowed");
         let log = if touches_kid { &mut kid_log } else { &mut main_log };
         let mut w = World::new(nslots, nctx, mk_backend(plugin));
